@@ -142,6 +142,22 @@ func (m *c20Model) apply(o c20Op) int {
 			v = strings.Join(m.args[1:], " ")
 		}
 		null := v == ""
+		if o.Val == "arith" {
+			// $((a=$P+1)): the parameter's VALUE is what the expression sees (a number, or the name of a variable)
+			pv, pset := m.get(o.Inner)
+			if !pset && m.opts&interp.NoUnset != 0 {
+				return -2 // an error is expected (C13's subject); the store must stay as it is
+			}
+			n, ok := c20Num(pv)
+			if !ok {
+				vv := m.vars[pv] // the value names a variable
+				if n, ok = c20Num(vv); !ok {
+					return 1
+				}
+			}
+			m.vars["a"] = strconv.FormatInt(n+1, 10)
+			return 0
+		}
 		if o.Inner != "" {
 			// ${n op INNER}: the word is expanded only when it is used; its own store effect and failure come first
 			used := !set || null && strings.HasPrefix(o.Val, ":")
@@ -395,6 +411,14 @@ func c20Ops() []c20Op {
 	for _, t := range [][2]string{{"${@%q}", "@"}, {"${@#p}", "@"}, {"${@%%?}", "@"}, {"${*#p}", "*"}, {"${1%p}", "1"}, {"\"${@%q}\"", "@"}} {
 		ops = append(ops, c20Op{Kind: "expand", Name: t[1], Val: "%", Text: t[0]})
 	}
+	// positional and special parameters inside an arithmetic expansion: their values, not their names or indices
+	for _, pn := range []string{"1", "2", "10", "#"} {
+		ref := "$" + pn
+		if len(pn) > 1 {
+			ref = "${" + pn + "}"
+		}
+		ops = append(ops, c20Op{Kind: "expand", Name: "a", Val: "arith", Inner: pn, Text: "$((a=" + ref + "+1))"})
+	}
 	for _, n := range []string{"a", "A"} {
 		for _, f := range []string{"n=1", "n+=1", "n++", "++n", "--n", "n", "m=n=2", "1/0", "n=1/0", "n=08", "0&&(n=7)", "0&&1/0", "1||(n=08)", "n=0?08:5", "(1||09)+(n=7)"} {
 			text := strings.ReplaceAll(f, "n", n)
@@ -475,7 +499,7 @@ func c20Run(w *W) {
 	if w.thorough() {
 		depth = 6
 	}
-	eleven := []string{"sh", "p1", "p2", "p3", "p4", "p5", "p6", "p7", "p8", "p9", "p10", "p11"}
+	eleven := []string{"sh", "p1", "640", "p3", "p4", "p5", "p6", "p7", "p8", "p9", "480", "p11"}
 	inits := []c20Init{}
 	for _, a := range [][]string{{"sh"}, {"sh", "p", "q"}, eleven, {"sh", ""}} {
 		for _, o := range []uint{0, uint(interp.NoUnset)} {
